@@ -10,7 +10,7 @@ EXTENDS Lexical, Json
 CONSTANT MaxLen
 Alphabet == { Ch("a", "letter"), Ch("1", "digit"), Ch("_", "letter"), Ch("$", "letter"), Ch(" ", "space"), Ch("-", "other"),
               Ch("\"", "punct"), Ch("'", "punct"), Ch("\\", "punct"), Ch("*", "punct"), Ch("/", "punct"), Ch("é", "letter"),
-              Ch("\n", "nl") }
+              Ch("\n", "nl"), Ch("{", "punct"), Ch("}", "punct") }
 VARIABLE s
 Init == s = <<>>
 Next == Len(s) < MaxLen /\ \E c \in Alphabet : s' = Append(s, c)
